@@ -39,11 +39,11 @@ def run_with_frame(fn):
   return cap
 
 
-def gen_case(rng, supervised):
+def gen_case(rng, supervised, large_scale=False):
   d = int(rng.integers(2, 5))
   X, y = gen.dataset(rng, d=d, n_classes=int(rng.integers(2, 4)), bits=5, per_class=int(rng.integers(5, 18)))
   # raw features of any magnitude (an exact power of two keeps the grid): the multipliers scale like 1 / distance^2
-  prior_kind = str(rng.choice(['identity', 'covariance', 'random', 'array']))
+  prior_kind = 'identity' if large_scale else str(rng.choice(['identity', 'covariance', 'random', 'array']))
   if prior_kind == 'array':
     A = rng.normal(size=(d, d))
     prior = gen.grid(A.T.dot(A) + np.eye(d), bits=5)
@@ -53,10 +53,10 @@ def gen_case(rng, supervised):
   # raw features of any magnitude (an exact power of two keeps the grid): the multipliers scale like 1 / distance^2.
   # (with an O(1) array / random prior and data of magnitude 2^17 the optimum has a condition number beyond double
   # precision - the solver legitimately loses definiteness -, so those priors keep unit-scale data)
-  scale = float(2.0 ** int(rng.choice([0, 0, 0, -7, 9, 17, 22]))) if prior_kind in ('identity', 'covariance') else 1.0
+  scale = float(2.0 ** 14) if large_scale else (float(2.0 ** int(rng.choice([0, 0, 0, -7, 9, 14, 14]))) if prior_kind in ('identity', 'covariance') else 1.0)
   X = X * scale
   gamma = float(rng.choice([0.25, 1.0, 4.0, 64.0]))       # the stated quantifier is gamma in (0, inf)
-  mode = str(rng.choice(['converged', 'few_iterations', 'prior_feasible']))
+  mode = 'converged' if large_scale else str(rng.choice(['converged', 'few_iterations', 'prior_feasible']))
   max_iter = int(rng.integers(1, 6)) if mode == 'few_iterations' else 3000
   tol = 1e-3 if mode == 'few_iterations' else 1e-12
   seed = int(rng.integers(1000))
@@ -70,11 +70,13 @@ def gen_case(rng, supervised):
     pairs = X[idx]
   if mode == 'prior_feasible':
     bounds = np.array([1e6, 1e-6]) * scale * scale      # every similar pair is closer than the upper, every dissimilar farther than the lower bound
-  elif rng.random() < 0.8 or len(X) < 30:
+  elif large_scale or rng.random() < 0.8 or len(X) < 30:
     # explicit bounds; the default (5th / 95th percentile of ALL pairwise distances, zero diagonal included) is only
     # used on sets of >= 30 points, where the 5th percentile is not the diagonal's zero
     dd = np.sqrt(((pairs[:, 0] - pairs[:, 1]) ** 2).sum(1))
-    bounds = scale * np.array([float(np.round(np.percentile(dd, 30) / scale * 8) / 8 + 0.125), float(np.round(np.percentile(dd, 70) / scale * 8) / 8 + 0.25)])
+    # (the bounds constrain v^T M v: they live on the SQUARED distance scale)
+    s2 = scale * scale
+    bounds = s2 * np.array([float(np.round(np.percentile(dd ** 2, 30) / s2 * 8) / 8 + 0.125), float(np.round(np.percentile(dd ** 2, 70) / s2 * 8) / 8 + 0.25)])
   ev = {'ev': 'ItmlFit', 'supervised': bool(supervised), 'mode': mode, 'prior_kind': prior_kind, 'exc': '',
         'gamma_inf': bool(np.isinf(gamma)), 'gamma': dy(0.0 if np.isinf(gamma) else gamma), 'max_iter': max_iter,
         'tight_tol': bool(tol <= 1e-9), 'n_iter': 0, 'L': [], 'M0': [], 'P': [], 'P0': [], 'chol': [], 'v': [], 'y': [],
@@ -129,7 +131,7 @@ def gen_case(rng, supervised):
 
 def gen_trace(recipe):
   rng = np.random.default_rng(recipe['seed'])
-  return {'est': 'ITML', 'events': [gen_case(rng, recipe['supervised']) for _ in range(recipe['n'])]}
+  return {'est': 'ITML', 'events': [gen_case(rng, recipe['supervised'], bool(recipe.get('large_scale'))) for _ in range(recipe['n'])]}
 
 
 def signature_of(recipe, tr, clause, pos):
@@ -144,6 +146,9 @@ def run(ctx):
   rs = []
   for i in range(16 if ctx.quick else 384):
     rs.append(dict(supervised=bool(i % 2), n=5 if ctx.quick else 12, seed=int(rng.integers(1 << 30))))
+  # directed: an O(1) prior with raw features of magnitude 2^14 (tiny multipliers), run to convergence
+  for i in range(2 if ctx.quick else 16):
+    rs.append(dict(supervised=bool(i % 2), large_scale=True, n=4 if ctx.quick else 10, seed=int(rng.integers(1 << 30))))
   ctx.rule = ('random pair sets (both labels, non-collapsed) x priors {identity, covariance, random, SPD array} x gamma in '
               '{1/4, 1, 4, 64} x explicit / default bounds x {run to convergence with tol 1e-12, 1-5 iterations, prior '
               'already feasible}; ITML and ITML_Supervised; distinct by event content; non-trivial = at least one active '
